@@ -451,6 +451,8 @@ OBLIGATIONS = {
     "C16": [("guards", "new_init_lazy_branches"), ("guards", "new_init_transpose")],
     "C17": [("names", "lemma_names_never_clash"), ("names", "lemma_names_table"), ("names", "lemma_name3_injective"), ("names", "lemma_name1_injective"), ("names", "lemma_distinguishable"), ("names", "lemma_names_strlits"), ("gen", "JoinOutput::generate_def_and_step_streams")] + [("core", n) for n in ['construct_var_name', 'construct_step_results_name', 'construct_result_name', 'construct_thread_builder_name', 'construct_inspect_fn_name', 'construct_spawn_tokio_fn_name', 'construct_results_name', 'construct_handler_name', 'construct_internal_value_name', 'construct_thread_builder_fn_name', 'construct_expr_wrapper_name']],
     "C20": [("core", n) for n in ['construct_var_name', 'construct_step_results_name', 'construct_result_name', 'construct_thread_builder_name', 'construct_inspect_fn_name', 'construct_spawn_tokio_fn_name', 'construct_results_name', 'construct_handler_name', 'construct_internal_value_name', 'construct_thread_builder_fn_name', 'construct_expr_wrapper_name']],
+    "C10": [("core", "ProcessExpr::is_replaceable"), ("core", "ProcessExpr::replace_inner_exprs"), ("core", "ErrExpr::replace_inner_exprs"),
+            ("gen", "JoinOutput::generate_def_and_step_streams"), ("gen", "JoinOutput::wrap_last_step_stream")],
     "C11": [("core", "ProcessExpr::is_replaceable"), ("core", "ProcessExpr::inner_exprs"),
             ("core", "ProcessExpr::replace_inner_exprs"), ("core", "ErrExpr::inner_exprs"),
             ("core", "ErrExpr::replace_inner_exprs"), ("core", "InitialExpr::inner_exprs"),
